@@ -332,6 +332,80 @@ func mandatoryTxt(repo string) []string {
 	return res
 }
 
+// ---- ship/handshake.go: design facts of the handshake timer
+func containsCall(n ast.Node, name string) bool {
+	found := false
+	ast.Inspect(n, func(x ast.Node) bool {
+		if c, ok := x.(*ast.CallExpr); ok && sel(c.Fun) == name {
+			found = true
+		}
+		return !found
+	})
+	return found
+}
+
+func mentions(n ast.Node, name string) bool {
+	found := false
+	ast.Inspect(n, func(x ast.Node) bool {
+		if id, ok := x.(*ast.Ident); ok && id.Name == name {
+			found = true
+		}
+		return !found
+	})
+	return found
+}
+
+func timerCfg(repo string) (perArm, stopCloses, recheck bool) {
+	f := parse(repo, "ship/handshake.go")
+	arm := funcDecl(f, "setHandshakeTimer")
+	stop := funcDecl(f, "stopHandshakeTimer")
+	if arm == nil || stop == nil {
+		return
+	}
+	// a fresh channel per armed timer, stored in the connection
+	perArm = containsCall(arm.Body, "make") && mentions(arm.Body, "handshakeTimerStopChan")
+	// stop closes the channel and does not send on it
+	hasSend := false
+	ast.Inspect(stop.Body, func(x ast.Node) bool {
+		if _, ok := x.(*ast.SendStmt); ok {
+			hasSend = true
+		}
+		return true
+	})
+	stopCloses = containsCall(stop.Body, "close") && !hasSend
+	// the time.After case re-checks running flag and channel identity before handleState, and returns otherwise
+	ast.Inspect(arm.Body, func(x ast.Node) bool {
+		cc, ok := x.(*ast.CommClause)
+		if !ok || cc.Comm == nil || !containsCall(cc.Comm, "After") {
+			return true
+		}
+		guarded := false
+		for _, st := range cc.Body {
+			if ifs, ok := st.(*ast.IfStmt); ok {
+				condOk := (mentions(ifs.Cond, "handshakeTimerRunning") || containsCall(ifs.Cond, "getHandshakeTimerRunning")) &&
+					mentions(ifs.Cond, "handshakeTimerStopChan")
+				returns := false
+				for _, b := range ifs.Body.List {
+					if _, ok := b.(*ast.ReturnStmt); ok {
+						returns = true
+					}
+				}
+				if condOk && returns {
+					guarded = true
+				}
+			}
+			if es, ok := st.(*ast.ExprStmt); ok && containsCall(es, "handleState") {
+				if guarded {
+					recheck = true
+				}
+				return false
+			}
+		}
+		return false
+	})
+	return
+}
+
 func main() {
 	repo := flag.String("repo", "/repo", "repository root")
 	out := flag.String("out", "", "directory for the generated Lean files (default: print)")
@@ -426,6 +500,10 @@ func main() {
 	}
 	w("]\n\n")
 	flush("MiscFacts.lean")
+	{
+		a, b, c := timerCfg(*repo)
+		files["TimerFacts.lean"] = fmt.Sprintf("/- GENERATED by /verif/extract from /repo — do not edit. -/\nimport ShipVerif.Model.Timer\nnamespace ShipVerif.Generated\n\n/-- ship/handshake.go setHandshakeTimer / stopHandshakeTimer: design facts -/\ndef timerCfg : ShipVerif.Timer.Cfg := { perArmChannel := %v, stopCloses := %v, recheck := %v }\n\nend ShipVerif.Generated\n", a, b, c)
+	}
 	for name, text := range files {
 		if *out == "" {
 			fmt.Printf("-- FILE %s\n%s", name, text)
